@@ -232,7 +232,8 @@ theorem hRun_nts (lists : List Nat) (ps : List Payload) (pend : List Nat) :
 
 /-- (R8) no request of the client's own is POSTed while responses are read -/
 theorem hRun_no_calls (lists : List Nat) (ps : List Payload) (pend : List Nat) :
-    (postsOf (hRun lists pend ps).2).filterMap (fun p => match p with | .call k => some k | _ => none) = [] := by
+    callsIn (hRun lists pend ps).2 = [] := by
+  unfold callsIn
   have h := hRun_toks lists ps pend
   generalize (hRun lists pend ps).2 = toks at h
   induction toks with
